@@ -1,6 +1,7 @@
 import UgoVerif.Proofs.OpsOrder
 import UgoVerif.Gen.Fold
 import UgoVerif.Gen.Unary
+import UgoVerif.Proofs.OptimProgram
 /-
   C01 — the optimizer never changes what a script does.
 
@@ -11,10 +12,20 @@ import UgoVerif.Gen.Unary
   rewriting agrees with IsFalsy, and the evaluator's whitelists contain no
   opcode or builtin with an effect outside the private VM.
 
-  `C01_full` (whole-program equivalence at every budget) is stated over the
-  abstract run function and proved only in the sense of `opt_steps_sound_partial`
-  below; above that the `sem` stream compares optimized and unoptimized runs of
-  generated programs with each other and with the reference semantics.
+  Round 3: `Model/Optim.lean` is a Lean model of the optimizer's `transform` / `evalExpr` /
+  pass loop for the EXPRESSION fragment (literals, identifiers, unary, binary incl. && || == !=,
+  parentheses, ?:, expression / return statements), tied to the real
+  `ugo.NewOptimizer(...).Optimize()` by stream `optast`.  Proved below against the reference
+  semantics `Spec/Sem`: `optExpr_sound` (every rewrite of the model preserves the value, the thrown
+  error and the final state of the expression in every environment), `opt_error_is_const_error`
+  (an optimizer error is the run-time error of a sub-expression of the script),
+  `optimize_sound_every_budget` + `budget_prefix` (the budget only selects how many passes run;
+  a smaller budget runs a prefix of the passes of a larger one), `cond_literal_taken` /
+  `cond_literal_rewrite` / `if_literal_rewrite` / `if_literal_taken` (constant conditions), `C01_fragment`
+  (whole scripts of the fragment at every budget).
+
+  `C01_full` (whole-program equivalence at every budget, all statements) is still stated over the
+  abstract run function; what is not covered by a theorem is listed at `C01_full`.
 -/
 namespace UgoVerif.Props.C01
 open UgoVerif UgoVerif.Go UgoVerif.Gen UgoVerif.Model UgoVerif.Proofs
@@ -99,8 +110,201 @@ theorem whitelist_builtins_pure :
            "BuiltinSort", "BuiltinSortReverse", "BuiltinRepeat", "BuiltinMakeArray", "BuiltinCap"],
       b ∉ Gen.allowedBuiltins := by decide +kernel
 
+/-! ## Round 3: the optimizer model against the reference semantics -/
+
+section Optimizer
+open UgoVerif.Ast UgoVerif.VM UgoVerif.Proofs.OptimSem UgoVerif.Model.Optim
+
+/-- the table facts the optimizer proofs consume are exactly `fold_binaryop_agree` -/
+theorem binFoldFact (F : FloatOps) : BinFoldFact F := by
+  intro S op a b lit h
+  have h1 := fold_binaryop_agree F S op a b lit h
+  have e : ∀ l, litVal l = UgoVerif.Proofs.OptimSem.litVal l := by intro l; cases l <;> rfl
+  rw [e, e, e] at h1
+  exact h1
+
+/-- outcome of evaluating an expression with the reference semantics: `(.ok (result, σ'), s')` with
+    `result = .val v` or `.thr err`, or `(.error _, _)` (fuel exhausted / outside Spec/Sem) -/
+def evalOutcome (F : FloatOps) (fuel : Nat) (env : Sem.Env) (e : Expr) (σ : Sem.SemSt) (s : State) :
+    Except Exc (Sem.ER × Sem.SemSt) × State :=
+  ((Sem.evalExpr F fuel env e).run σ).run.run s
+
+/-- outcome of throwing the uGO error `oe` -/
+def raiseOutcome (oe : OpErr) (σ : Sem.SemSt) (s : State) : Except Exc (Sem.ER × Sem.SemSt) × State :=
+  ((Sem.raise oe).run σ).run.run s
+
+/-- **Soundness of the optimizer on expressions.**  Whatever the optimizer state (remaining budget,
+    `evalBits`, `exprLevel`, earlier errors): if `transform` followed by `evalExpr` turns `e` into `e'`,
+    then for every fuel, environment and state in which the reference semantics evaluates `e` to a
+    value or to a thrown error, it evaluates `e'` to the same value / the same error with the same
+    final state. -/
+theorem optExpr_sound (F : FloatOps) (lineOf : Pos → Nat) (st st' : OSt) (e e' : Expr)
+    (h : optExpr F lineOf st e = some (e', st')) :
+    ∀ fuel env σ s r s', evalOutcome F fuel env e σ s = (.ok r, s') →
+      evalOutcome F fuel env e' σ s = (.ok r, s') := by
+  unfold optExpr at h
+  cases ht : transform F lineOf st e with
+  | none => simp [ht] at h
+  | some x =>
+    obtain ⟨e1, ok, st1⟩ := x
+    simp only [ht] at h
+    have h1 := (transform_sound F (binFoldFact F) lineOf e _ _ _ _ ht).eq
+    have h2 := (evalStep_sound F lineOf h).1
+    intro fuel env σ s r s' hr
+    exact EvalEq.trans h1 h2 fuel env σ s r s' hr
+
+/-- **The optimizer refuses only with the error of a constant sub-expression.**  Every error the
+    optimizer appends while working on `e` belongs to a sub-expression `x` of `e` (`Sub x e`) such
+    that whenever the reference semantics evaluates `x` properly — in any environment — the outcome
+    is exactly that error being thrown. -/
+theorem opt_error_is_const_error (F : FloatOps) (lineOf : Pos → Nat) (st st' : OSt) (e e' : Expr)
+    (h : optExpr F lineOf st e = some (e', st')) :
+    ∃ new, st'.errors = st.errors ++ new ∧ ∀ pe ∈ new, ∃ x, Sub x e ∧
+      ∀ fuel env σ s r s', evalOutcome F fuel env x σ s = (.ok r, s') → raiseOutcome pe.2 σ s = (.ok r, s') := by
+  unfold optExpr at h
+  cases ht : transform F lineOf st e with
+  | none => simp [ht] at h
+  | some x =>
+    obtain ⟨e1, ok, st1⟩ := x
+    simp only [ht] at h
+    have h1 := transform_sound F (binFoldFact F) lineOf e _ _ _ _ ht
+    have h2 := evalStep_sound F lineOf h
+    obtain ⟨new, hn, hall⟩ := ErrsFrom.trans h1.errs (h2.2.to_from h1.eq)
+    refine ⟨new, hn, fun pe hpe => ?_⟩
+    obtain ⟨x, hx, hc⟩ := hall pe hpe
+    exact ⟨x, hx, fun fuel env σ s r s' hr => hc fuel env σ s r s' hr⟩
+
+/-- **Soundness at every budget.**  Whatever `OptimizerLimit` is, the file the pass loop ends with
+    consists of the same statements with interchangeable operand expressions (`FileRel`: expression and
+    return statements whose expressions satisfy the conclusion of `optExpr_sound`). -/
+theorem optimize_sound_every_budget (F : FloatOps) (lineOf : Pos → Nat) (limit : Int) (file : List Stmt) (o : Out)
+    (h : optimize F lineOf limit file = some o) : FileRel F file o.file := by
+  unfold optimize at h
+  obtain ⟨k, _, hk⟩ := loop_is_passN F lineOf _ _ _ h
+  exact passN_sound F (binFoldFact F) lineOf k _ _ _ _ hk
+
+/-- **The budget selects a prefix of the passes.**  The result at limit `l` is the result of
+    `o.passes` passes of the budget-independent pass function, and a smaller limit runs at most as many
+    passes as a larger one: it stops the same rewriting sequence earlier.  (optimizer.go checks
+    `limit` only between passes; within a pass no replacement is suppressed.) -/
+theorem budget_prefix (F : FloatOps) (lineOf : Pos → Nat) (l l' : Int) (hle : l ≤ l') (file : List Stmt) (o o' : Out)
+    (h : optimize F lineOf l file = some o) (h' : optimize F lineOf l' file = some o') :
+    o.passes ≤ o'.passes ∧
+    passN F lineOf o.passes (file, {}) = some (o.file, o.st) ∧
+    passN F lineOf o'.passes (file, {}) = some (o'.file, o'.st) := by
+  unfold optimize at h h'
+  refine ⟨?_, ?_, ?_⟩
+  · refine loop_mono F lineOf _ _ _ _ _ _ ?_ ?_ ?_ ?_ ?_ h h'
+    · rfl
+    · rfl
+    · rfl
+    · exact hle
+    · exact Nat.le_refl _
+  · obtain ⟨k, hk1, hk2⟩ := loop_is_passN F lineOf _ _ _ h
+    simp only [Nat.zero_add] at hk1
+    rw [hk1]; exact hk2
+  · obtain ⟨k, hk1, hk2⟩ := loop_is_passN F lineOf _ _ _ h'
+    simp only [Nat.zero_add] at hk1
+    rw [hk1]; exact hk2
+
+/-- soundness of any number of passes follows from the single-pass fact -/
+theorem passes_sound (F : FloatOps) (lineOf : Pos → Nat) (n : Nat) (file file' : List Stmt) (st st' : OSt)
+    (h : passN F lineOf n (file, st) = some (file', st')) : FileRel F file file' :=
+  passN_sound F (binFoldFact F) lineOf n _ _ _ _ h
+
+/-- **Constant conditions.**  `c ? t : e` on a literal `c` is the taken branch (the branch selected by
+    the regenerated `isLiteralFalsy`). -/
+theorem cond_literal_taken (F : FloatOps) (c : Expr) (falsy : Bool)
+    (h : Gen.isLiteralFalsy F (litOf c) = .ok (some falsy)) (p : Pos) (t e : Expr) (fuel : Nat) (env : Sem.Env) :
+    Sem.evalExpr F (fuel+2) env (.cond p c t e) = Sem.evalExpr F (fuel+1) env (if falsy then e else t) :=
+  cond_lit_taken F h p t e fuel env
+
+/-- the optimizer's rewrite of a literal condition into a BoolLit keeps the meaning of `?:` -/
+theorem cond_literal_rewrite (F : FloatOps) (c c' : Expr) (h : condLit F c = some c') (p p' : Pos) (t e : Expr) :
+    ∀ fuel env σ s r s', evalOutcome F fuel env (.cond p c t e) σ s = (.ok r, s') →
+      evalOutcome F fuel env (.cond p' c' t e) σ s = (.ok r, s') :=
+  fun fuel env σ s r s' hr => condLit_sound h p p' t e fuel env σ s r s' hr
+
+/-- `if` on a literal condition: the BoolLit the optimizer writes into `IfStmt.Cond` (so that the compiler
+    drops the untaken branch) keeps the meaning of the statement, with or without init statement / else -/
+theorem if_literal_rewrite (F : FloatOps) (c : Expr) (falsy : Bool)
+    (h : Gen.isLiteralFalsy F (litOf c) = .ok (some falsy)) (p bp : Pos) (init : Option Stmt) (body : List Stmt)
+    (els : Option Stmt) (fuel : Nat) (env : Sem.Env) :
+    Sem.execStmt F fuel env (.if_ p init c bp body els) =
+      Sem.execStmt F fuel env (.if_ p init (.bool c.pos (!falsy)) bp body els) :=
+  if_lit_rewrite F h p bp init body els fuel env
+
+/-- `if true { body } else e` is `body` (in its own scope), `if false …` is the else branch / nothing -/
+theorem if_literal_taken (F : FloatOps) (p q bp : Pos) (b : Bool) (body : List Stmt) (els : Option Stmt)
+    (fuel : Nat) (env : Sem.Env) :
+    Sem.execStmt F (fuel+2) env (.if_ p none (.bool q b) bp body els) =
+      (if b then do
+          let (c, _) ← Sem.execBlock F (fuel+1) ([] :: env) body
+          pure (c, env)
+        else
+          match els with
+          | some e => do let (c, _) ← Sem.execStmt F (fuel+1) ([] :: env) e; pure (c, env)
+          | none => pure (.normal, env)) :=
+  if_bool_taken F p q bp b body els fuel env
+
+/-- outcome of running a whole script with the reference semantics -/
+def programOutcome (F : FloatOps) (fuel : Nat) (file : List Stmt) (args : List V) (σ : Sem.SemSt) (s : State) :
+    Except Exc (Sem.Result × Sem.SemSt) × State :=
+  ((Sem.runProgram F fuel file args).run σ).run.run s
+
+/-- **C01 for the modelled fragment** (scripts of `param`/`global` declarations, expression statements and
+    `return`, over the expression fragment): at EVERY `OptimizerLimit` the script the optimizer model
+    returns has the outcome of the original script — same returned value or same uncaught error, same
+    final heap and globals — for all arguments, in every state, for every fuel with which the
+    reference semantics ends properly. -/
+theorem C01_fragment (F : FloatOps) (lineOf : Pos → Nat) (limit : Int) (file : List Stmt) (o : Out)
+    (h : optimize F lineOf limit file = some o) :
+    ∀ fuel args σ s r s', programOutcome F fuel file args σ s = (.ok r, s') →
+      programOutcome F fuel o.file args σ s = (.ok r, s') :=
+  fun fuel args σ s r s' hr =>
+    runProgram_rel (optimize_sound_every_budget F lineOf limit file o h) fuel args σ s r s' hr
+
+/-! non-vacuity: the rewrites fire, the semantic hypotheses are satisfiable, errors are reported -/
+
+private def F0 : FloatOps := ⟨fun a _ => a, fun a _ => a, fun a _ => a, fun a _ => a, id, id, id⟩
+/-- `1 + 2` -/
+private def onePlusTwo : Expr := .binary 1 12 (.int 1 1#64) (.int 5 2#64)
+/-- `(1 / 0) + x` -/
+private def divZeroPlusX : Expr := .binary 1 12 (.paren 1 (.binary 2 15 (.int 2 1#64) (.int 6 0#64))) (.ident 9 "x")
+/-- `param x; 1 + 2; return (2 > 1) ? x : 7` -/
+private def prog : List Stmt :=
+  [.declParam 1 [(7, "x", false)], .expr 9 onePlusTwo,
+   .return_ 15 (some (.cond 23 (.paren 22 (.binary 23 40 (.int 23 2#64) (.int 27 1#64))) (.ident 32 "x") (.int 36 7#64)))]
+
+example : (optExpr F0 (fun _ => 1) { exprLevel := 1 } onePlusTwo).map (·.1) = some (.int 1 3#64) := rfl
+example : ∃ r s', evalOutcome F0 3 [] onePlusTwo {} default = (.ok r, s') := ⟨_, _, rfl⟩
+example : (optExpr F0 (fun _ => 1) { exprLevel := 1 } divZeroPlusX).map (·.2.errors.length) = some 1 := rfl
+example : (optimize F0 (fun p => p / 9) 1 prog).map (·.passes) = some 1 ∧
+    (optimize F0 (fun p => p / 9) 100 prog).map (·.passes) = some 2 := ⟨rfl, rfl⟩
+example : (optimize F0 (fun p => p / 9) 100 prog).map (·.file) =
+    some [.declParam 1 [(7, "x", false)], .expr 1 (.int 1 3#64), .return_ 15 (some (.cond 23 (.bool 23 true) (.ident 32 "x") (.int 36 7#64)))] := rfl
+example : ∃ r s', programOutcome F0 9 prog [.int 5#64] {} default = (.ok r, s') := ⟨_, _, rfl⟩
+
+end Optimizer
+
 /-- the full statement, over an abstract `run` (outcome of compiling and running a script):
-    at every budget the optimized program has the outcome of the unoptimized one. -/
+    at every budget the optimized program has the outcome of the unoptimized one.
+
+    Proved of it (Round 3): `C01_fragment` — the instance where `Script` is a file of the modelled
+    fragment, "optimize" is `Model.Optim.optimize` (tied to the real optimizer by stream `optast`) and
+    the outcome is the one of the reference semantics `Spec/Sem` (tied to compiler+VM by stream `sem`).
+    NOT covered by a theorem, oracles only (`optshadow`, `optconst`, `sem`, `optast`'s own oracle):
+    * statements other than expression / return / param / global: assignments, `var`/`const` declarations,
+      if / for / for-in / try / throw, function literals — and with them the scope discipline
+      (`optimizerScope.shadowed`: every binding form must reach `scope.define`);
+    * builtin calls and identifiers that name builtins, evaluated on the private VM
+      (`canOptimizeInsts`' builtin whitelist: `whitelist_builtins_pure`), containers, index / selector / slice;
+    * constant identifiers substituted by the compiler (`optimizeExpr`, `handleConstLits`, ScopeConstLit) and
+      the budget shared between the optimizer, the modules and that const folding;
+    * the compiler's dead-branch elimination on the BoolLit the optimizer leaves in `if` (for `?:` the
+      semantic fact is `cond_literal_taken` / `cond_literal_rewrite`);
+    * that the compiled bytecode of the optimized AST run by the VM has the outcome `Spec/Sem` gives
+      (compiler/VM correctness: streams `sem`, `compile`, `vmtrace`). -/
 def C01_full (Script Outcome : Type) (compileRun : (optimize : Option Nat) → Script → Option Outcome) : Prop :=
   ∀ (p : Script) (budget : Nat) (o₁ o₂ : Outcome),
     compileRun (some budget) p = some o₁ → compileRun none p = some o₂ → o₁ = o₂
